@@ -29,6 +29,25 @@ def check(ctx):
     abstypes.r18_join_aggregators(ctx)
     abstypes.r18_computed_field(ctx)
     abstypes.r17_isinstance_order(ctx, [ctx.repo.func('dataflows.helpers.iterable_loader:iterable_storage.field_type')])
+    ft = ctx.repo.func('dataflows.helpers.iterable_loader:iterable_storage.field_type')
+    want = {'str': 'string', 'bool': 'boolean', 'int': 'integer', '(float, decimal.Decimal)': 'number', 'list': 'array',
+            'dict': 'object', 'datetime.datetime': 'datetime', 'datetime.date': 'date'}
+    got = {}
+    import ast as _ast
+    from sa.model import u as _u
+    for n in _ast.walk(ft.node):
+        if isinstance(n, _ast.If) and isinstance(n.test, _ast.Call) and _u(n.test.func) == 'isinstance' and len(n.body) == 1:
+            c = n.body[0].value if isinstance(n.body[0], _ast.Expr) else None
+            if isinstance(c, _ast.Call) and _u(c.func).endswith('.add') and isinstance(c.args[0], _ast.Constant):
+                got[_u(n.test.args[1])] = c.args[0].value
+    run.rule('R16i', 'INFERENCE-TABLE: each Python class of a sampled value maps to the Table Schema type that accepts it; a column whose '
+                     'sample shows more than one type (or none) is declared "any"')
+    run.check(got == want, 'R16i', ft.where, ft.qualname, 'class -> type table %s' % sorted(got.items()),
+              'the inferred type for some Python class is one that rejects values of that class: %s'
+              % sorted(set(got.items()) ^ set(want.items())))
+    from sa.pattern import has_stmt as _hs
+    run.check(_hs("if len(_t) != 1:\n    return 'any'\nelse:\n    return _t.pop()", ft.node), 'R16i', ft.where, ft.qualname,
+              "mixed or empty sample -> 'any'", 'a column with values of several types is declared with one of them')
     # 4. selected-only edits
     funcs = [fi for fi in package_steps(ctx.repo) if matcher_names(ctx.repo, ctx.res, fi)]
     for c in processor_classes(ctx.repo, ctx.res):
